@@ -276,3 +276,17 @@ func finishOrReplay(ctx *evid.Ctx, replay string) int {
 	fmt.Println("not reproduced (property holds on this case)")
 	return 0
 }
+
+// finishReplay ends a replay run: the verdict is whether the single replayed case violates the property; the evidence
+// file is not touched.
+func finishReplay(ctx *evid.Ctx) int {
+	if ctx.NumViolations() > 0 {
+		for _, l := range ctx.Describe() {
+			fmt.Println(l)
+		}
+		fmt.Println("REPRODUCED")
+		return 1
+	}
+	fmt.Println("not reproduced (property holds on this case)")
+	return 0
+}
